@@ -149,6 +149,9 @@ class DuelingDistributionalMLP(EvolvableMLP):
 
         x = F.softmax(x.view(-1, self.num_atoms), dim=-1)
         x = x.view(-1, self.num_actions, self.num_atoms).clamp(min=1e-3)
+        # NOTE: the clamp lifts atoms below 1e-3, renormalise so that every return distribution has
+        # total mass one again (the projected target of a terminal transition carries exactly this mass)
+        x = x / x.sum(dim=-1, keepdim=True)
         if q:
             x = torch.sum(x * self.support, dim=2)
 
